@@ -19,6 +19,7 @@ import (
 
 	cfg "github.com/lianxiangcloud/linkchain/config"
 	"github.com/lianxiangcloud/linkchain/libs/common"
+	"github.com/lianxiangcloud/linkchain/types"
 )
 
 var (
@@ -63,7 +64,7 @@ func (w *world) close() {
 
 // trackAll names every address value can reach, so that flat-mode dumps attribute every account.
 func (w *world) trackAll() {
-	w.c.Track(common.EmptyAddress, txkit.A.Addr, txkit.B.Addr, txkit.C.Addr, txkit.D.Addr, collector,
+	w.c.Track(common.EmptyAddress, txkit.A.Addr, txkit.B.Addr, txkit.C.Addr, txkit.D.Addr, collector, types.MultiSignNonceAddr,
 		w.store, w.reverter, w.vault, w.issuer)
 	// addresses of contracts that creation ops of account A may produce at its next 8 nonces
 	n := w.c.Nonce(txkit.A.Addr)
@@ -276,6 +277,7 @@ func setupBlocks() [][]op {
 			{Kind: "create", From: "A", Code: "reverter", Amt: "0"},
 			{Kind: "create", From: "A", Code: "vault", Amt: "0"},
 			{Kind: "create", From: "A", Code: "issuer", Amt: "0"},
+			{Kind: "multisign"},
 			{Kind: "ain", From: "B", Tok: "coin", Dests: []dest{{"W0", 0, "300c"}, {"W0", 1, "200c"}, {"W1", 0, "100c"}}, Fee: "min"},
 			{Kind: "ain", From: "C", Tok: "coin", Dests: []dest{{"W0", 2, "120c"}, {"W2", 0, "80c"}}, Fee: "min"},
 		},
